@@ -284,7 +284,7 @@ def bi_merge(old_data, new_data, asof = 'now', existing_data = None):
     index_name = df.index.name
     if index_name is None:
         df.index.name = 'index'
-    gb = df.sort_values(_updated).groupby(df.index.name)
+    gb = df.sort_values(_updated, kind = 'stable').groupby(df.index.name)
     res = pd.concat([_drop_repeats(d) for _, d in gb])
     res.index.name = index_name
     return res
